@@ -8,10 +8,6 @@ pub open spec fn hdr_img(msg: StunMessage) -> Seq<u8> {
 // image of the header plus the first k attributes, exactly as the RFC lays them out:
 // TLV = type(16) length(16) value padding-to-4 ; the header length covers everything after byte 20;
 // an attribute's post-processing (MAC / CRC) sees the prefix with the length already covering itself
-pub open spec fn post_n(a: StunAttribute, enc: Seq<u8>, v: Seq<u8>) -> Seq<u8> {
-    let w = a.post_wire(enc, v);
-    if w.len() == v.len() { w } else { v }
-}
 pub open spec fn tlv_step(p: Seq<u8>, a: StunAttribute) -> Seq<u8> {
     let v = a.wire(p);
     let p2 = set_len(p, p.len() - 20 + 4 + v.len() + pad4(v.len() as int));
